@@ -27,6 +27,8 @@ func TestDebug(t *testing.T) {
 		sp = c13specs("C13")[0]
 	case "C34":
 		sp = c34specs()[0]
+	case "C01b":
+		sp = c01specs()[1]
 	case "C24":
 		sp = c2324specs("C24")[0]
 	case "C24b":
